@@ -69,6 +69,30 @@ def _classifier(loop, var_candidates):
                 break
             if ok and chain:
                 return var, chain
+        elif isinstance(st, InlineBlock):
+            # a classifier helper written with early returns, inlined: `if c1: v = 'a'; <ret>` ... `v = 'z'` is the same chain
+            chain = []
+            var = None
+            ok = True
+            from ..inline import InlineReturn as _IR
+            for x in st.body:
+                if isinstance(x, ast.If) and not x.orelse and len(x.body) == 2 and isinstance(x.body[1], _IR) and isinstance(x.body[0], ast.Assign) \
+                        and isinstance(x.body[0].value, ast.Constant) and isinstance(x.body[0].value.value, str) and isinstance(x.body[0].targets[0], ast.Name):
+                    v = x.body[0].targets[0].id
+                    var = var or v
+                    if v != var:
+                        ok = False
+                    chain.append((x.test, x.body[0].value.value))
+                elif isinstance(x, ast.Assign) and isinstance(x.value, ast.Constant) and isinstance(x.value.value, str) and isinstance(x.targets[0], ast.Name) \
+                        and (var is None or x.targets[0].id == var):
+                    var = var or x.targets[0].id
+                    chain.append((None, x.value.value))
+                elif isinstance(x, _IR) or isinstance(x, ast.Pass):
+                    continue
+                else:
+                    ok = False
+            if ok and len(chain) >= 2:
+                return var, chain
     return None, None
 
 
